@@ -10,7 +10,7 @@ namespace Chain
 @[simp] theorem strip_cons (k' : Key) (v : Val) (c : Chain) (k : Key) :
     strip ((k', v) :: c) k = if k' = k then c else (k', v) :: strip c k := rfl
 
-theorem get_strip_ne (c : Chain) {k k' : Key} (h : k' ≠ k) : (strip c k).get k' = c.get k' := by
+theorem get_strip_of_ne (c : Chain) {k k' : Key} (h : k' ≠ k) : (strip c k).get k' = c.get k' := by
   induction c with
   | nil => rfl
   | cons p c ih =>
